@@ -36,8 +36,9 @@ CLAIMED = {
          '*:version, id:version exactly; every non-bare specifier selects exactly the documented lexicons (as sets) and a list '
          'selects the union; a bare id selects exactly the most recently added lexicon with that id (last row); nothing '
          'unmatched is ever selected; wn.Error iff nothing matches (except bare *), wn.lexicons() then returns []. Assumes ids '
-         'and versions contain no colon and no glob metacharacter (ids_plain).',
-         'Trusted: Coq kernel + vm_compute; SQLite GLOB modelled for * and ? only (character classes not generated), rowid order '
+         'and versions contain no colon and no glob metacharacter (ids_plain). Character classes follow SQLite (members, ^ inversion, '
+         'ranges, unterminated class matches nothing; two naive readings refuted by witnesses) and patterns without [ reduce to the * / ? fragment.',
+         'Trusted: Coq kernel + vm_compute; SQLite GLOB as transcribed from sqlite3 patternCompare (validated against SQLite 3.40 on 1.26 million pairs incl. an exhaustive sweep; the oracle matcher is re-checked against SQLite on every run), rowid order '
          '= insertion order, str.split(); correspondence harness.',
          'DESIGN.md section 5, C08'),
  'C14': ('Coq proof over a Gallina model of wn.similarity in two layers (natural-number/synset "parts" + the documented formula '
@@ -56,8 +57,11 @@ CLAIMED = {
          'with fuel |V|+2 on every finite graph; min/max depth; common_hypernyms = intersection of ancestor sets; shortest_path is a '
          'genuine undirected hypernym path of length min_c dist(a,c)+dist(b,c), symmetric, wn.Error iff nothing shared, always '
          'connected with simulate_root; lowest_common_hypernyms symmetric and sorted. Partial: "greatest depth" and taxonomy_depth '
-         'are proved for acyclic graphs only (cyclic taxonomy_depth is refuted: known finding F12); roots/leaves and the '
-         'simulate_root distances are decided by correspondence + oracle only.',
+         'are proved for acyclic graphs only (cyclic taxonomy_depth is refuted: known finding F12). roots/leaves are exactly the '
+         'synsets without hypernyms/hyponyms (order and multiplicity kept); simulate_root appends the root to every path on every '
+         'graph and, on acyclic graphs, equals computing in the graph with one node added above all roots (refuted for cyclic '
+         'graphs by a witness); with it shortest_path is never an error and minimal over the extended common hypernyms. The agenda '
+         'loops of the code refine the recursive model.',
          'Trusted: Coq kernel + vm_compute; the recursive model of the agenda loop (validated exhaustively on all digraphs with '
          '<= 3 (quick) / 4 (thorough) nodes); synset.hypernyms() is the model input; correspondence harness.',
          'DESIGN.md section 5, C13'),
@@ -236,6 +240,23 @@ CLAIMED.update({
          'regular-expression scanner over raw text that is not modelled; decided by the oracle only). "Database unchanged" is C06\'s '
          'atomicity theorem plus the fact that add starts from the loaded resource.',
          LMF_TRUST, 'DESIGN.md section 5 C20, Appendix E'),
+})
+
+CLAIMED.update({
+ 'C01': ('Coq proof over the Gallina model of wn._add.add_lexical_resource (document -> rows) composed, outside Coq, with the '
+         'query-layer model (rows -> API; theorems of C04/C09/C10/C11); the add model is tied to the code by row-for-row '
+         'comparison of all tables after every add, the query model by the observation battery; a document-level oracle on '
+         'the real code compares every API answer with the generated document (per lexicon scope and in default mode, with '
+         'queries interleaved between adds and a churn of rowids)',
+         'Partial. Theorems (closed under the global context), for every database, normaliser table and resource: batching loses '
+         'nothing; one lexicons row per lexicon that is not skipped, in document order, with all attributes; for each such '
+         'lexicon exactly its local entries, forms (lemma rank 0, then document order), synsets (ILI resolved, proposed ILIs with '
+         'their definition), senses (entry rank, synset rank from members) and children/relations/frames rows, one per '
+         'declaration, in document order, cell by cell, with consecutive fresh rowids; nothing else changes and references stay '
+         'valid. Not proved in Coq: tags and pronunciations rows; the composition "API answer = document" itself (the two models '
+         'use different table representations; the composition is decided end to end by the oracle and by both correspondences '
+         'on the same databases). Known finding F3 (tags/pronunciations of extensions have no owner).',
+         ADD_TRUST, 'DESIGN.md section 5 C01, Appendix E'),
 })
 
 NOT_YET = 'not covered yet in this round: model, theorems and correspondence are planned (DESIGN.md sections 5 and 9) but no sound check is registered, so nothing is claimed'
